@@ -9,9 +9,10 @@ import (
 )
 
 // C18: failures of the underlying reader or writer are always surfaced.
-//   (1 scenario)             demux scenario with a failing reader (demux.go / RunDemux.v)
-//   (2 period ops failAt oneShot)  muxer history with the failAt-th Write call failing (RunC18.v); oneShot is not part of
-//                            what the model sees: the history is observed up to the failing call only
+//
+//	(1 scenario)             demux scenario with a failing reader (demux.go / RunDemux.v)
+//	(2 period ops failAt oneShot)  muxer history with the failAt-th Write call failing (RunC18.v); oneShot is not part of
+//	                         what the model sees: the history is observed up to the failing call only
 type c18 struct{}
 
 func init() { props["C18"] = c18{} }
